@@ -55,6 +55,14 @@ func c06Universe(r *core.Rand, limits []uint32) []inputs.Input {
 }
 
 func (c *c06) Plan(seed uint64, tier string, worker, workers, idx int) *Plan {
+	if idx < 1000000 {
+		// the race phase starts with the systematic part: two callers detecting every
+		// entry of the repository's sample table at the same time
+		if sp := sweepPlanRace(seed, worker+idx*workers); sp != nil {
+			sp.Prop, sp.Slots = "C06", 4
+			return sp
+		}
+	}
 	r := core.NewRand(core.Mix(seed, 0xc06, uint64(worker), uint64(idx)))
 	if r.Chance(1, 8) {
 		// detections only, over the pool-dirtying / shape-sensitive inputs of the C04
